@@ -57,7 +57,7 @@ func (im *impl) fuzzDoc(h *vh.H, root *sRoot, doc *jval) ([]byte, string) {
 	var nodes []nodeRef
 	allNodes(doc, nil, 0, &nodes)
 	pickNode := func() nodeRef { return nodes[h.Rng.IntN(len(nodes))] }
-	switch k := h.Rng.IntN(16); k {
+	switch k := h.Rng.IntN(17); k {
 	case 0: // truncation
 		b := doc.bytes()
 		if len(b) > 0 {
@@ -201,6 +201,20 @@ func (im *impl) fuzzDoc(h *vh.H, root *sRoot, doc *jval) ([]byte, string) {
 			o.members = append(o.members, jmember{key: k, keyRaw: string(quoteJSON(k)), val: vals[h.Rng.IntN(len(vals))]})
 		}
 		return doc.bytes(), "odd-key"
+	case 15: // rename a member (known name -> unknown / other known name)
+		var objs []*jval
+		for _, n := range nodes {
+			if n.v.kind == jObj && len(n.v.members) > 0 {
+				objs = append(objs, n.v)
+			}
+		}
+		if len(objs) > 0 {
+			o := objs[h.Rng.IntN(len(objs))]
+			i := h.Rng.IntN(len(o.members))
+			nk := []string{"zzRenamed", "value", "!type", o.members[h.Rng.IntN(len(o.members))].key, strings.ToUpper(o.members[i].key)}[h.Rng.IntN(5)]
+			o.members[i].key, o.members[i].keyRaw = nk, string(quoteJSON(nk))
+		}
+		return doc.bytes(), "rename-key"
 	case 14: // every scalar replaced by null / by a container
 		for _, n := range nodes {
 			if n.v.kind != jObj && n.v.kind != jArr && h.Rng.IntN(2) == 0 {
